@@ -203,7 +203,7 @@ pub fn special_by_index(i: usize, r: &mut Rng) -> FormatSpecial {
         6 => FormatSpecial::TabVertical,
         7 => FormatSpecial::Null,
         8 => FormatSpecial::Backslash,
-        _ => FormatSpecial::Ascii(*r.pick(&[0o101u16, 0o040, 0o001, 0o177, 0o012, 0o060, 0o042, 0o134, 0o176, 0o045, 0o050, 0o000, 0o011])),
+        _ => FormatSpecial::Ascii(*r.pick(&[0o101u16, 0o040, 0o001, 0o177, 0o012, 0o060, 0o042, 0o134, 0o176, 0o045, 0o050, 0o000, 0o011, 0o200, 0o351, 0o377])),
     }
 }
 
